@@ -726,7 +726,7 @@ def expected_files(out):
     full, models = out["full"], out["models"][False]
     content = {"f%d" % p: b"INIT%d\n" % p for p in out["present"]}
     skip = set()
-    alt = {}        # finding captured-builtin-last-stage: content when the builtin's text is lost (the code before C04-fix-6)
+    alt = {}        # finding captured-builtin-target-ignored: content when the captured lone builtin's text does not reach the file
 
     def name(obj, unop):
         pid = int(obj[1:].split(".")[0])
@@ -743,10 +743,11 @@ def expected_files(out):
             from_bad = st["frm"].startswith("<") and int(st["frm"][1:]) in s["unop"]
             unsure = bool([c for c in pos["cls"] if c != "oos"]) or "oos" in pos["cls"]
             nxt = s["stages"][i + 1] if i + 1 < n else None
-            lost_asis = st["kind"] == "B" and s["capture"] and n > 1 and i == n - 1
-            if not pos["ok"] and not lone_builtin:
+            lost_asis = lone_builtin and s["capture"]
+            if not pos["ok"] and (not lone_builtin or s["capture"]):
                 unsure = True              # the diagnostic goes to the stage's current (possibly redirected) stderr
-                                           # (a builtin alone on its line reports on the shell's own stderr)
+                                           # (an UNCAPTURED builtin alone on its line reports on the shell's own stderr; a captured one
+                                           # with redirections runs in a forked child like a stage, see notes/C04-fix-7.patch)
             if nxt is not None and (nxt["kind"] != "E" or not m["posix"][i + 1]["ok"] or nxt["frm"] != "-"):
                 unsure = True              # the reader may be gone before this stage writes (SIGPIPE)
             if unsure:
@@ -772,11 +773,8 @@ def expected_files(out):
                         se += pat(int(a[1:]))
             elif st["kind"] == "B":
                 so, se = TEXTS.get(st["builtin"], (None, None))
-                if lone_builtin and s["capture"]:
-                    # a captured builtin alone on its line keeps its text in the CommandResult (the substitution gets it);
-                    # whether a file target also receives it is not claimed here: predictable only if it prints nothing
-                    so = b"" if so == b"" else None
-                    se = b"" if se == b"" else None
+                # a captured builtin alone on its line: the reference is POSIX (the text follows the redirections); the code
+                # keeps the text in the CommandResult (finding captured-builtin-target-ignored): `alt` is that content
             else:
                 so, se = b"", NOTFOUND
             for data, sink in ((so, pos["sinks"][1]), (se, pos["sinks"][2])):
@@ -803,6 +801,8 @@ def check_files(out):
         if nm in skip or "/" in nm or nm.startswith("d"):
             continue
         e, o = exp.get(nm), out["files_full"].get(nm)
-        if e != o:
+        if e != o and nm in alt and o == alt[nm]:
+            out["lost_builtin_text"].append(nm)       # exactly the recorded wrong behaviour
+        elif e != o:
             bad.append((nm, None if e is None else e[:80].decode("latin1"), None if o is None else o[:80].decode("latin1")))
     return bad
